@@ -204,7 +204,7 @@ func init() {
 	marshal := func(fr *frame, msg value) value {
 		it := msg.(iface)
 		if it.t == nil {
-			panic(targetPanic{"Marshal of nil message"})
+			panic(targetPanic{strPanic("Marshal of nil message")})
 		}
 		pt, ok := it.t.Underlying().(*types.Pointer)
 		if !ok {
